@@ -286,6 +286,9 @@ func (i *interpreter) callVX(fr *frame, fn *ssa.Function, args []value) value {
 		i.ps.csvModel = true
 		i.ps.csvRecords = nil
 		return nil
+	case "ModelJSONDecoder":
+		i.ps.jsonDecode = args[0]
+		return nil
 	case "RealDigits":
 		i.ps.realDigits = true
 		return nil
